@@ -37,6 +37,7 @@ type Interp struct {
 	sorts    map[string]bool
 	safetyN  map[string]int
 	frozenOf map[*Cell]Term
+	refTerm  map[*Cell]Term // pointee cell of a pointer thawed from a Ref term -> that term
 	dbCells  map[string]*Cell
 	pureAxDone map[string]bool
 	fieldViews map[*Cell][]fieldView
@@ -730,6 +731,9 @@ func (in *Interp) freeze(v Val, t types.Type, st *State, f *Frame) Term {
 func (in *Interp) refOf(p PtrV) Term {
 	in.D.declareSort(SRef)
 	in.D.declareOnce("ref_nil", "(declare-const ref_nil Ref)")
+	if t, ok := in.refTerm[p.To]; ok {
+		return t
+	}
 	name := fmt.Sprintf("ref!%d", p.To.ID)
 	if !in.D.seen["ref:"+name] {
 		in.D.declareOnce("ref:"+name, fmt.Sprintf("(declare-const %s Ref)", name))
@@ -807,6 +811,32 @@ func (in *Interp) thaw(tm Term, t types.Type, f *Frame) Val {
 			c := in.newCell("vptr", CVar, u.Elem())
 			in.initial[c] = in.thaw(App(s+"_val", in.sortOf(u.Elem()), tm), u.Elem(), f)
 			return PtrV{To: c, Nil: App(s+"_nil", SBool, tm)}
+		}
+		if nn := namedName(f.resolve(u.Elem())); nn != "" && in.W.opaqueTypes[nn] && (tm.Sort == SRef || tm.Sort == "Iface") {
+			// pointer to a type declared opaque: the pointee is an unknown value determined by the
+			// reference; freezing the pointer again gives back the same reference term
+			es := in.sortOf(u.Elem())
+			dn := "deref_" + es
+			if tm.Sort != SRef {
+				// the pointer travelled through a container of interface-typed (type parameter)
+				// elements: the interface term stands for the reference
+				dn += "_" + tm.Sort
+			}
+			in.D.declareFun(dn, []string{tm.Sort}, es)
+			c := in.newCell("optr", CVar, u.Elem())
+			in.initial[c] = Sc{App(dn, es, tm)}
+			if in.refTerm == nil {
+				in.refTerm = map[*Cell]Term{}
+			}
+			in.refTerm[c] = tm
+			in.D.declareSort(SRef)
+			in.D.declareOnce("ref_nil", "(declare-const ref_nil Ref)")
+			if tm.Sort == "Iface" {
+				in.D.declareSort("Iface")
+				in.D.declareOnce("iface_nil", "(declare-const iface_nil Iface)")
+				return PtrV{To: c, Nil: Eq(tm, Term{S: "iface_nil", Sort: "Iface"})}
+			}
+			return PtrV{To: c, Nil: Eq(tm, Term{S: "ref_nil", Sort: SRef})}
 		}
 		// pointers read back from containers: target identified by the Ref term (field-heap model)
 		c := in.W.refCell(in, tm, u.Elem())
